@@ -15,11 +15,41 @@ import (
 	"github.com/prometheus/client_golang/prometheus"
 	"github.com/resonatehq/resonate/internal/aio"
 	"github.com/resonatehq/resonate/internal/app/plugins/poll"
+	"github.com/resonatehq/resonate/internal/app/subsystems/aio/sender"
+	"github.com/resonatehq/resonate/internal/kernel/bus"
+	"github.com/resonatehq/resonate/internal/kernel/t_aio"
 	"github.com/resonatehq/resonate/internal/metrics"
 	"github.com/resonatehq/resonate/internal/verif/core"
 	"github.com/resonatehq/resonate/pkg/message"
+	"github.com/resonatehq/resonate/pkg/promise"
+	"github.com/resonatehq/resonate/pkg/receiver"
+	"github.com/resonatehq/resonate/pkg/task"
 	"pgregory.net/rapid"
 )
+
+// cqStub receives the production sender's completions and delivers them to the submission's callback at once.
+type cqStub struct{ aio.AIO }
+
+func (cqStub) EnqueueCQE(c *bus.CQE[t_aio.Submission, t_aio.Completion]) {
+	c.Callback(c.Completion, c.Error)
+}
+
+// pollAdapter stands where the poll plugin's queue stands: what the production sender hands to the plugin is pushed
+// through the poll worker's loop (the body the sender built is remembered for the model).
+type pollAdapter struct {
+	w    *poll.VerifLoop
+	body string
+}
+
+func (a *pollAdapter) String() string           { return "poll" }
+func (a *pollAdapter) Type() string             { return "poll" }
+func (a *pollAdapter) Start(chan<- error) error { return nil }
+func (a *pollAdapter) Stop() error              { return nil }
+func (a *pollAdapter) Enqueue(m *aio.Message) bool {
+	a.body = string(m.Body)
+	a.w.Send(m)
+	return true
+}
 
 // mconn is the reference model of one listener connection.
 type mconn struct {
@@ -61,6 +91,8 @@ func TestC18(t *testing.T) {
 				w.Stop()
 			}
 		}()
+		adapter := &pollAdapter{w: w}
+		sw := sender.NewVerifWorker(cqStub{}, m, map[string]*receiver.Recv{}, adapter)
 		var conns []*mconn
 		seq := 0
 		var trace []string
@@ -199,6 +231,7 @@ func TestC18(t *testing.T) {
 				}
 				db, _ := json.Marshal(data)
 				trace = append(trace, fmt.Sprintf("send %s to %s/%s body=%s", typ, g, id, body))
+				_ = receiver.Recv{}
 				// snapshot buffers (without draining): lengths
 				before := map[*mconn]int{}
 				for _, c := range conns {
@@ -207,9 +240,37 @@ func TestC18(t *testing.T) {
 				done, ok := 0, false
 				var derr error
 				var p any
+				// half of the messages come the way production messages come: through the production sender worker
+				// (receiver resolution, body, message type), whose plugin slot is wired to this poll worker
+				viaSender := rapid.Bool().Draw(rt, "viaSender")
 				func() {
 					defer func() { p = recover() }()
-					w.Send(&aio.Message{Type: typ, Data: db, Body: []byte(body), Done: func(s bool, e error) { done++; ok, derr = s, e }})
+					if !viaSender {
+						w.Send(&aio.Message{Type: typ, Data: db, Body: []byte(body), Done: func(s bool, e error) { done++; ok, derr = s, e }})
+						return
+					}
+					recv := []byte(fmt.Sprintf(`{"type":"poll","data":%s}`, db))
+					if rapid.Bool().Draw(rt, "logical") {
+						addr := "poll://" + g
+						if id != "" {
+							addr += "/" + id
+						}
+						recv, _ = json.Marshal(addr)
+					}
+					sub := &t_aio.SenderSubmission{Task: &task.Task{Id: body, Counter: 1, Recv: recv, Mesg: &message.Mesg{Type: typ, Root: "r", Leaf: "l"}}, ClaimHref: "c", CompleteHref: "d", HeartbeatHref: "h"}
+					if typ == message.Notify {
+						sub.Promise = &promise.Promise{Id: "r", State: promise.Resolved}
+					}
+					adapter.body = ""
+					sw.Process(&bus.SQE[t_aio.Submission, t_aio.Completion]{Id: body, Submission: &t_aio.Submission{Kind: t_aio.Sender, Tags: map[string]string{"id": body}, Sender: sub},
+						Callback: func(c *t_aio.Completion, e error) {
+							done++
+							ok, derr = e == nil && c != nil && c.Sender != nil && c.Sender.Success, e
+						}})
+					if adapter.body == "" {
+						fail("the sender did not hand the message for %s/%s to the poll transport: %v", g, id, derr)
+					}
+					body = adapter.body
 				}()
 				if p != nil {
 					fail("send panicked: %v", p)
